@@ -28,7 +28,11 @@ func wireCases(fn *ssa.Function, args []core.AVal, vr string, whole bool) ([]wir
 	ex := core.NewExec()
 	ex.MaxStates = 6000
 	// field widths are case-split when they derive from the controlling quantity only
-	core0 := strings.Trim(vr, "()")
+	// the innermost parenthesised part of the name: "(1+(ub-lb))" → "ub-lb"
+	core0 := vr
+	if i := strings.LastIndex(core0, "("); i >= 0 {
+		core0 = core0[i+1:]
+	}
 	if i := strings.Index(core0, ")"); i > 0 {
 		core0 = core0[:i]
 	}
@@ -94,10 +98,8 @@ func wireCases(fn *ssa.Function, args []core.AVal, vr string, whole bool) ([]wir
 	var cases []wireCase
 	for _, o := range outs {
 		wc := wireCase{lo: math.MinInt64, hi: math.MaxInt64}
-		if f, ok := o.SFacts[vr]; ok {
+		if f, ok := core.FactOf(o.SFacts, o.Facts, vr, 64); ok {
 			wc.lo, wc.hi = f[0], f[1]
-		} else if f, ok := o.Facts[vr]; ok && f[1] <= math.MaxInt64 {
-			wc.lo, wc.hi = int64(f[0]), int64(f[1])
 		}
 		// refusal: the error result is known to be non-nil
 		if n := len(o.Ret); n > 0 && o.Ret[n-1].NonNil && o.Ret[n-1].K == core.AUnknown {
@@ -229,7 +231,7 @@ func r3agree(c *core.Ctx) (cvDecided, intDecided bool) {
 			a[ubIdx] = core.NonNilArg(core.AVal{K: core.APtr, Path: "ub"})
 			return a
 		}
-		const vr = "((ub-lb)+1)"
+		const vr = "(1+(ub-lb))"
 		ec, err1 := wireCases(enc, mk(enc, 2, 3, 4), vr, false)
 		dc, err2 := wireCases(dec, mk(dec, 1, 2, 3), vr, false)
 		if err1 != nil || err2 != nil {
@@ -284,7 +286,7 @@ func DumpWire(c *core.Ctx) {
 	a[1] = core.AVal{K: core.AInt, Bits: core.ConstBits(0, 1)}
 	a[2] = core.NonNilArg(core.AVal{K: core.APtr, Path: "lb"})
 	a[3] = core.NonNilArg(core.AVal{K: core.APtr, Path: "ub"})
-	cs, err := wireCases(dec, a, "((ub-lb)+1)", false)
+	cs, err := wireCases(dec, a, "(1+(ub-lb))", false)
 	fmt.Println(err)
 	for _, x := range cs {
 		fmt.Printf("%d..%d %q\n", x.lo, x.hi, x.op)
